@@ -205,6 +205,27 @@ def _same_evaluator(P, R):
                 okc = in_ctx_loop and not fired_guard and not [a for a in other_guard if "debug" not in a]
             else:
                 okc = in_ctx_loop and bool(fired_guard)
+        if not okc:
+            # bulk form: `total += contexts.len()` / `total += contexts.iter().filter(|c| c.rule_fired).count()`
+            for d in ep.defs().get(l, []):
+                if d[2] != "assign":
+                    continue
+                v = strip(ep.sym_rvalue(d[3][4]))
+                if v[0] == "field" and v[2] == "0":
+                    v = strip(v[1])
+                if v[0] == "bin" and v[1] in ("Add", "AddWithOverflow"):
+                    for side in (v[2], v[3]):
+                        t = fmt_named(side, 8)
+                        sd = strip(side)
+                        if under is None and sd[0] == "call" and sd[1].endswith("::len") and "contexts" in t:
+                            okc = True
+                        if under is not None and sd[0] == "call" and sd[1].endswith("::count") and "contexts" in t and "::filter" in t:
+                            for x in walk(side):
+                                if x[0] == "agg" and str(x[1]).startswith("closure:"):
+                                    cf = P.fns.get(x[1][len("closure:"):])
+                                    rs = A.returned_syms(cf) if cf else []
+                                    if len(rs) == 1 and A.norm_bool(rs[0][1], True)[0].endswith(".fired") and A.norm_bool(rs[0][1], True)[1] is True:
+                                        okc = True
         if okc:
             R.hold("b", "%s += 1 per context%s" % (fld, " exactly under context.fired" if under else ""), fn=ep)
         else:
@@ -214,6 +235,17 @@ def _same_evaluator(P, R):
     pushes = [c for c in gr.calls() if c.name == "std::vec::Vec::push" and c.bb in gr.normal_blocks()]
     okg = pushes and all(any(isinstance(g["polarity"], bool) and A.norm_bool(g["cond"], g["polarity"]) == (A.norm_bool(g["cond"], g["polarity"])[0], True) and A.norm_bool(g["cond"], g["polarity"])[0].endswith(".enabled") for g in A.guards_of(gr, c.bb)) for c in pushes)
     key_ok = pushes and all(".salience" in fmt_sym(gr.sym_operand(c.args[0]), maxdepth=10) for c in pushes)
+    if not okg and pushes:
+        # `for rule in rules.iter().filter(|r| r.enabled)`: the guard sits in the iterator
+        for lp in gr.loops():
+            if any(c.bb in lp["body"] for c in pushes):
+                it = A.loop_driver(gr, lp).get("iter_sym")
+                for x in walk(it) if it is not None else []:
+                    if x[0] == "agg" and str(x[1]).startswith("closure:"):
+                        cf = P.fns.get(x[1][len("closure:"):])
+                        rs = A.returned_syms(cf) if cf else []
+                        if len(rs) == 1 and A.norm_bool(rs[0][1], True)[0].endswith(".enabled") and A.norm_bool(rs[0][1], True)[1] is True and "::filter" in fmt_sym(it, maxdepth=8):
+                            okg = True
     if okg and key_ok:
         R.hold("b", "group_rules_by_salience keeps enabled rules only, grouped by their salience", fn=gr)
     else:
